@@ -158,6 +158,74 @@ async fn ns_case(log: &mut Log, st: &mut Stats, rng: &mut Rng) {
     probe.shutdown();
 }
 
+/// Realistic duplicate-connection flow on one node: several sessions to the same peer are
+/// opened, registered and authenticated in a random order (with an unauthenticated
+/// name-spoofing session thrown in), querying ready/visible state after each commit.
+async fn ns_flow(log: &mut Log, st: &mut Stats, rng: &mut Rng) {
+    let this = *rng.pick(&["m@h", "b@b", "a@a"]);
+    let peer = *rng.pick(&["p@h", "a@z", "zz@h"]);
+    let mut probe = NodeStateProbe::new(this).await;
+    log.rec(format!("ns {this}"), "ok");
+    let n = rng.range(2, 5);
+    let dir_mode = rng.below(3);
+    let mut pids = Vec::new();
+    for _ in 0..n {
+        let srv = match dir_mode {
+            0 => true,
+            1 => false,
+            _ => rng.chance(1, 2),
+        };
+        let pid = probe.open(srv).await;
+        log.rec(format!("open {srv} {pid}"), "ok");
+        pids.push(pid);
+    }
+    let mut order = pids.clone();
+    rng.shuffle(&mut order);
+    for pid in &order {
+        let nonce = *rng.pick(&[0u64, 0, 4, 4, 9]);
+        let r = probe.register(*pid, peer, nonce);
+        log.rec(format!("register {pid} {peer} {nonce}"), r.to_string());
+        log.rec(format!("checkc {pid}"), probe.check_candidate(*pid));
+    }
+    // a spoofer: claims the same name, never authenticates
+    let spoof_srv = rng.chance(1, 2);
+    let spoof = probe.open(spoof_srv).await;
+    log.rec(format!("open {spoof_srv} {spoof}"), "ok");
+    let spoof_nonce = *rng.pick(&[0u64, 1]);
+    let r = probe.register(spoof, peer, spoof_nonce);
+    log.rec(format!("register {spoof} {peer} {spoof_nonce}"), r.to_string());
+    rng.shuffle(&mut order);
+    for pid in &order {
+        if rng.chance(1, 6) {
+            continue;
+        }
+        st.bump("flow_commit");
+        let obs = match probe.commit(*pid) {
+            None => "none".to_string(),
+            Some((s, mut l)) => {
+                l.sort_unstable();
+                if !l.is_empty() {
+                    st.bump("ns_commit_with_losers");
+                }
+                for x in &l {
+                    if rng.chance(1, 2) {
+                        // the handler stops losers; their exit removes them from the state
+                        probe.close(*x);
+                    }
+                }
+                format!("{s} {}", show_u64s(&l))
+            }
+        };
+        log.rec(format!("commit {pid}"), obs);
+        log.rec("visible", show_u64s(&probe.visible()));
+        for q in &pids {
+            log.rec(format!("elected {q}"), probe.is_elected(*q).to_string());
+        }
+        log.rec(format!("checkc {spoof}"), probe.check_candidate(spoof));
+    }
+    probe.shutdown();
+}
+
 fn exhaustive(log: &mut Log, st: &mut Stats) {
     // every candidate list of length ≤ 3 over nonce ∈ {0,1,2}, both flags, both name orders
     // and the equal-name case, ids = a permutation-representative set {1,2,3} in every order.
@@ -225,6 +293,7 @@ async fn main() {
     }
     for _ in 0..(cases / 4).max(5) {
         ns_case(&mut log, &mut st, &mut rng).await;
+        ns_flow(&mut log, &mut st, &mut rng).await;
     }
     st.add("lines", log.lines);
     st.write_json(&std::path::Path::new(&out).join("stats.json"));
